@@ -48,6 +48,8 @@ class SymEval:
         self.probe = False
         self.opaque_n = 0
         self.notes = []
+        self.pstate = set()    # dids of static locals and of locals looked up in them
+        self.cache_paths = []  # if-statements that return early on a cache hit
         self.consts = {}       # template parameter / static constant name -> integer (the rule instantiates a dimension)
         self.lambdas = {}      # did -> LambdaExpr node (local lambdas called directly)
         for p in fn.get("params", []):
@@ -284,6 +286,8 @@ class SymEval:
                     t[int(idx[0])] = val
                     self.env[cur["did"]] = tuple(t)
                 return
+        if any(y.get("k") == "DeclRefExpr" and y.get("did") in self.pstate for y in walk(lhs)):
+            return
         self.notes.append("assignment target not modelled: %s" % self.facts.ntext(lhs)[:60])
 
     def exec(self, s):
@@ -300,6 +304,11 @@ class SymEval:
                     continue
                 init = kids(v)
                 t = v.get("t", "")
+                if v.get("staticlocal") or (init and any(y.get("k") == "DeclRefExpr" and y.get("did") in self.pstate for y in walk(init[0]))):
+                    # process-wide state (a cache of finished tables) and what is looked up in it: not part of what THIS kernel computes;
+                    # whether sharing it is sound is the business of the key-completeness rule (c05.no_process_state)
+                    self.pstate.add(v["did"])
+                    continue
                 if ("[" in t or "std::array<" in t.replace(" ", "")) and (not init or (strip(init[0]).get("k") in ("CXXConstructExpr", "InitListExpr", "CXXTemporaryObjectExpr", "ImplicitValueInitExpr", "CXXUnresolvedConstructExpr") and not kids(strip(init[0])))):
                     self.arrays[v["did"]] = {}
                     continue
@@ -357,6 +366,14 @@ class SymEval:
                     self.fn = saved
                     return
             self.eval(s)
+            return
+        if k == "IfStmt" and any(y.get("k") == "DeclRefExpr" and y.get("did") in self.pstate for y in walk(s["c"][0])):
+            th = s["c"][1] if len(s["c"]) > 1 else None
+            el = s["c"][2] if len(s["c"]) > 2 else None
+            if th is not None and any(y.get("k") == "ReturnStmt" for y in walk(th)) and el is None:
+                self.cache_paths.append(s)      # hit: this kernel takes tables an earlier kernel with the same key built along the path below
+                return
+            self.notes.append("branch on process-wide state not modelled at %s" % self.facts.loc(s))
             return
         if k == "IfStmt":
             c = self.eval(s["c"][0])
